@@ -709,7 +709,16 @@ class Bounds:
                 elif a.lo is not None and b.lo is not None and a.lo >= 0 and b.lo >= 0:
                     r.lo = a.lo * b.lo
             elif op == '/':
-                if b.lo is not None and b.lo > 0 and a.lo is not None and a.lo >= 0:
+                if None not in (a.lo, a.hi, b.lo, b.hi) and (b.lo > 0 or b.hi < 0) and not (a.lo >= 0 and b.lo > 0):
+                    # C division truncates towards zero and is monotone in each argument on a sign-constant divisor: the extremes are at the corners
+                    def cdiv(x, y):
+                        q = abs(x) // abs(y)
+                        return q if (x >= 0) == (y > 0) else -q
+                    ps = [cdiv(x, y) for x in (a.lo, a.hi) for y in (b.lo, b.hi)]
+                    if a.lo < 0 < a.hi:
+                        ps.append(0)
+                    r.lo, r.hi = min(ps), max(ps)
+                elif b.lo is not None and b.lo > 0 and a.lo is not None and a.lo >= 0:
                     r.lo = (a.lo // b.hi) if b.hi is not None else 0
                     r.hi = a.hi // b.lo if a.hi is not None else None
                     r.ubs |= {('<=', s) for (o, s) in a.ubs}
@@ -832,10 +841,50 @@ class Bounds:
                 return B(0, None).clamp_type(tr)
             if cal in ('abs', 'labs', 'llabs'):
                 return B(0, None).clamp_type(tr)
+            rr = self._ret_range(cal)
+            if rr is not None:
+                return B(rr[0], rr[1]).clamp_type(tr)
             return B().clamp_type(tr)
         if k == 'ParenExpr':
             return self._ev(K[0], point, depth)
         return B().clamp_type(tr)
+
+    def _ret_range(self, cal):
+        """numeric range of what a library function can return, whatever its arguments: join over its return statements, each evaluated
+        in the callee with unknown parameters (clamp helpers, table look-ups, counters); None when nothing finite comes out"""
+        prog = self.prog
+        cache = prog.__dict__.setdefault('_ret_ranges', {})
+        if cal in cache:
+            return cache[cal]
+        cache[cal] = None               # recursion guard
+        gs = prog.fns.get(cal) or []
+        if len(gs) != 1 or type_range(gs[0].ret) is None:
+            return None
+        g = gs[0]
+        rets = [x for x in g.walk() if x['k'] == 'ReturnStmt' and x.get('kids')]
+        if not rets or len(list(g.walk())) > 400:
+            return None
+        try:
+            gb = Bounds(prog, g, self.eff)
+            lo, hi = None, None
+            for r_ in rets:
+                pt = g.cfg.point(r_)
+                if pt is None:
+                    continue
+                b = gb.ev_at(g.N[r_['kids'][0]], pt)
+                if b.bot:
+                    continue
+                if b.lo is None or b.hi is None:
+                    return None
+                lo = b.lo if lo is None else min(lo, b.lo)
+                hi = b.hi if hi is None else max(hi, b.hi)
+        except Exception:
+            return None
+        tr = type_range(g.ret)
+        if lo is None or (lo <= tr[0] and hi >= tr[1]):
+            return None
+        cache[cal] = (lo, hi)
+        return cache[cal]
 
     def _inline_call(self, n, point, depth):
         """value of a call to a tiny pure helper whose body is `return <expr over one parameter>` (make_size_t, casts): bounds of the argument through the casts"""
@@ -868,6 +917,8 @@ class Bounds:
         (flow-insensitive field invariant; calloc'd structs add 0)"""
         if node is None or node.get('k') != 'MemberExpr' or node.get('rec') in (None, 'sf_private_tag'):
             return None
+        if str(node.get('rec')).upper().startswith('SF_'):
+            return None         # public API types (SF_INFO, SF_FORMAT_INFO, SF_CHUNK_INFO ...): the caller writes them too
         key = (node.get('rec'), node['n'])
         cache = self.prog.__dict__.setdefault('_field_inv', {})
         if key in cache:
